@@ -57,7 +57,7 @@ func main() {
 			return
 		}
 		ms := p.funcModSet(fn)
-		fmt.Println("all:", ms.all)
+		fmt.Println("all:", ms.all, "calls parameters:", ms.paramCalls)
 		for _, k := range sortedKeys(ms.names) {
 			fmt.Println("  ", k)
 		}
